@@ -58,12 +58,15 @@ pub fn populate(mk: &mut Mk, o: &TreeOpts) {
             // handle there): a non-zero value must not influence where the file is found
             mk.patch_slot(root, old_slot, |e| e[20..22].copy_from_slice(&[0x01, 0x00]));
         }
-        // RO.DAT sits in the very first data cluster (directly behind a FAT16 root directory); the rest of its block is zero
-        mk.file(root, "RO.DAT", 0x21, &[fix(2)], 100, 2);
+        // the very first data cluster (cluster 2) belongs to RO.DAT on FAT16 (it lies directly behind the root
+        // directory region, and the rest of RO.DAT's block is zero) and to ALGN.DAT on a FAT32 volume whose root is
+        // elsewhere (deleting or truncating ALGN.DAT must release cluster 2 like any other)
+        let (ro_first, algn_first) = if mk.g.fat32 { (fix(15), fix(2)) } else { (fix(2), fix(15)) };
+        mk.file(root, "RO.DAT", 0x21, &[ro_first], 100, 2);
         // hidden + archive: hidden and system files are ordinary files to this library
         mk.file(root, "EMPTY.DAT", 0x22, &[], 0, 3);
         // exactly three clusters (cluster-aligned length), chain not in ascending order
-        let algn_slot = mk.file(root, "ALGN.DAT", 0x20, &[fix(15), fix(14), fix(16)], 3 * cb, 6);
+        let algn_slot = mk.file(root, "ALGN.DAT", 0x20, &[algn_first, fix(14), fix(16)], 3 * cb, 6);
         // fields other systems fill in and this library does not interpret: case flags, creation-time tenths, access date
         mk.patch_slot(root, algn_slot, |e| {
             e[12] = 0x18;
